@@ -10,7 +10,8 @@
 
    NOT claimed here: max_stops and compatibility attributes have no exact
    check in the code path modelled here; they are guarded by the move
-   estimates only (model pending).
+   estimates only (modelled in Model/Estimates.v; see Props/C09.v,
+   C09_no_exact_check_for_max_stops_and_attributes).
 
    Model: NR.Model.Engine; proofs: NR.Proofs.Engine_inv, NR.Proofs.Engine_spec.
    This file only states the theorems.
